@@ -1598,6 +1598,51 @@ def p_index_terms(b):
     b.step("lazy Subs(x, i=v)(i=idx)", lambda: e(i=idx))
 
 
+@program
+def p_scalar_index(b):
+    """Scalar indices — held 0-d integer Tensor, 0-d ndarray, np.int64, Python int, Number — substituted into
+    LAZY Cat / Stack / Slice / Variable terms (parts mention a free real variable, or built under reflect /
+    lazy) at positions in the first, middle and last part, twice with the SAME index object; the selected
+    value is compared with numpy indexing of the concatenation by the index's ORIGINAL value."""
+    z = Variable("z", Real)
+    sizes = [b.rng.randint(1, 3) for _ in range(3)]
+    parts_t = [b.tensor([("i", s_)], ()) for s_ in sizes]
+    total = sum(sizes)
+    full = np.concatenate([np.asarray(p_.data) for p_ in parts_t])
+    cat_free = Cat("i", tuple(p_ * z for p_ in parts_t))           # stays lazy: free real variable
+    with reflect:
+        cat_refl = Cat("i", tuple(parts_t))
+    with lazy:
+        cat_lazy = Cat("c", tuple(p_(i="c") for p_ in parts_t), "c")
+        st_lazy = Stack("s", tuple(parts_t[0](i=0) * 1.0 for _ in range(total)))
+    st_free = Stack("s", tuple(b.tensor([], ()) * z for _ in range(total)))
+    sl = Slice("t", 1, total + 1, 1, total + 2)
+    v = Variable("i", Bint[total])
+    b.hold(cat_free, cat_refl, cat_lazy, st_lazy, st_free, sl)
+    positions = sorted({0, sizes[0] - 1, sizes[0], sizes[0] + sizes[1] - 1, sizes[0] + sizes[1], total - 1})
+    for pos in b.rng.sample(positions, min(2, len(positions))) + [b.rng.choice([p_ for p_ in positions if p_ >= sizes[0]])]:
+        k0 = b.mon.register(np.array(pos), "scalar index")               # user-held 0-d integer array
+        idx = b.hold(Tensor(k0, OrderedDict(), total))
+        k32 = b.mon.register(np.array(pos, dtype=np.int32), "scalar index")
+        idx32 = b.hold(Tensor(k32, OrderedDict(), total))
+        kinds = [("Tensor0d:int64", idx), ("Tensor0d:int32", idx32), ("ndarray0d", k0), ("np.int64", np.int64(pos)),
+                 ("int", pos), ("Number", Number(pos, total))]
+        for kname, k in b.rng.sample(kinds, 2) + [("Tensor0d:int64", idx)]:
+            for rep_ in (1, 2):                                          # the same index object twice
+                r = b.step(f"lazy Cat(parts*z)(i={kname}={pos}) #{rep_}", lambda: cat_free(i=k)(z=2.0))
+                if isinstance(r, (Tensor, Number)) and not np.array_equal(np.asarray(r.data), 2.0 * full[pos], equal_nan=True):
+                    raise MutationObserved(list(b.history), [("value", f"Cat(i={kname}) selected {np.asarray(r.data)} expected {2.0 * full[pos]} (position {pos})")])
+                r = b.step(f"reflect Cat(i={kname}={pos}) #{rep_}", lambda: cat_refl(i=k))
+                if isinstance(r, (Tensor, Number)) and not np.array_equal(np.asarray(r.data), full[pos], equal_nan=True):
+                    raise MutationObserved(list(b.history), [("value", f"reflect Cat(i={kname}) selected {np.asarray(r.data)} expected {full[pos]}")])
+                b.step(f"lazy Cat(c={kname}={pos}) #{rep_}", lambda: cat_lazy(c=k))
+                b.step(f"lazy Stack(s={kname}={pos}) #{rep_}", lambda: st_lazy(s=k))
+                b.step(f"Stack(parts*z)(s={kname}={pos}) #{rep_}", lambda: st_free(s=k)(z=1.5))
+                b.step(f"Slice(t={kname}={pos}) #{rep_}", lambda: sl(t=k))
+                b.step(f"Variable(i={kname}={pos}) #{rep_}", lambda: v(i=k))
+                b.step(f"(v+1)(i={kname}) #{rep_}", lambda: (v + 1)(i=k))
+
+
 def run_program(name, mon, rng, edge="auto"):
     """Run one program.  Returns (status, info): status in ok | declined | violation | harness-bug."""
     mon.rng = rng          # layout choices of this program's arrays come from its own PRNG (exact replay)
